@@ -54,17 +54,23 @@ def wait_rules(rep, rid, F):
             rep.bad(rid, fn, loc_of(uev), "no-reset-guard", "the queue entry is not protected by reset_queue_entry before the lock is released: "
                     "a waiter leaving by timeout/exception stays in the queue and a later notify wakes a dead entry")
         # result mapping
-        rets = [ev for _, _, ev in fn.all_events() if ev.get("k") == "return" and ev.get("e") is not None]
-        good = False
-        if len(rets) == 1:
-            e = strip(rets[0]["e"])
-            if e.get("k") == "cond":
-                a, pos = cond_atoms(e["c"])
-                entry = a.endswith(".ctx_")
-                t, f = T(strip(e["t"])), T(strip(e["f"]))
-                if not pos:
-                    t, f = f, t
-                good = entry and t.endswith("::timeout") and f.endswith("::signaled")
+        # result mapping: every returned value with the facts it is returned under ('c ? a : b' and if/else alike)
+        from engine.kinds import guarded_returns
+        gr = guarded_returns(fn)
+        rets = [ev for _, _, ev in gr]
+        good = bool(gr)
+        seen = set()
+        for leaf, fb, _ in gr:
+            v = T(leaf)
+            ctx = [t for a, t in fb if a.endswith(".ctx_")]
+            if v.endswith("::timeout"):
+                good = good and ctx == [True]
+            elif v.endswith("::signaled"):
+                good = good and ctx == [False]
+            else:
+                good = False
+            seen.add(v.rsplit("::", 1)[-1])
+        good = good and seen == {"timeout", "signaled"}
         if good:
             rep.ok(rid, fn, "returns signaled iff the queue entry's context was consumed by a notifier")
         else:
